@@ -14,6 +14,9 @@ for f in sorted(glob.glob(os.path.join(ROOT, 'seeded', '*', 'meta.json'))):
     meta = json.load(open(f))
     if only and only not in meta['id']:
         continue
+    if meta.get('obsolete_after'):
+        rows.append((meta['id'], 'obsolete after fix %s (the change no longer alters behaviour)' % meta['obsolete_after']['commit'], ''))
+        continue
     d = os.path.dirname(f)
     subprocess.run(['git', '-C', '/repo', 'worktree', 'remove', '--force', W], capture_output=True)
     subprocess.run(['git', '-C', '/repo', 'worktree', 'prune'])
